@@ -49,7 +49,7 @@ Refines == Assert(s' \in ObsAllowed(s, last'), << "code-shaped step outside what
 
 Proj(st) == [limit |-> st.limit,
              res |-> [p \in ProbePaths |-> IF Present(st, p)
-                                      THEN [present |-> TRUE, seq |-> st.res[p].seq, obs |-> st.res[p].obs]
+                                      THEN [present |-> TRUE, seq |-> st.res[p].seq, obs |-> ViewSeq(st.res[p].obs)]
                                       ELSE [present |-> FALSE, seq |-> 0, obs |-> << >>]]]
 Emit == EmitOn => CSVWrite("%1$s", << ToJson([h |-> h', st |-> Proj(s')]) >>, IOEnv.OUT)
 =============================================================================
